@@ -209,7 +209,7 @@ def strat(lm_type):
 
         @st.composite
         def case(draw):
-            fam, M = draw(logprob_matrix(max_T=7, max_C=5, long_lines=(lm_type == "hash")))
+            fam, M = draw(logprob_matrix(max_T=7, max_C=5, long_lines=(lm_type == "hash"), big_alphabet=(lm_type == "hash")))
             C = M.shape[1]
             start = draw(st.none() | st.lists(st.integers(0, C - 2), min_size=0, max_size=3).map(tuple))
             return ((fam, M), draw(st.sampled_from([1, 2, 3, 5, 10, 10000] if lm_type == "hash" else [1, 2, 3, 5, 10])), draw(st.sampled_from(["default", "all"])),
